@@ -59,6 +59,16 @@ def cross_weighted(c):
     return any(x.get("weight") not in (None, 1) for pi in used for x in c["params"][pi]["crosses"])
 
 
+def with_reports(case, rnd):
+    """half of the histories also report / save in the middle (1-2 times, after the first instance exists)"""
+    if rnd.random() < 0.5:
+        ops = list(case["ops"])
+        for _ in range(rnd.randint(1, 2)):
+            ops.insert(rnd.randint(1, len(ops)), ["report"])
+        case = dict(case, ops=ops)
+    return case
+
+
 def evaluate(ctx, cases, tag):
     obs = core.run_impl_parallel(ctx, "c13_impl.py", cases)
     shard = 25
@@ -105,7 +115,7 @@ def run(ctx):
     core.check_prop_file(ctx, PROP_FILE)
     rnd = random.Random("C13-%d" % ctx.seed)
     n = 90 if ctx.quick() else 1500
-    cases = [c12.gen_case(rnd) for _ in range(n)]
+    cases = [with_reports(c12.gen_case(rnd), rnd) for _ in range(n)]
     stats = {"evaluations": 0, "zero_bins": 0, "known_region": 0}
     obs, codes = evaluate(ctx, cases, "c13")
     judge(ctx, cases, obs, codes, stats)
@@ -117,7 +127,7 @@ def run(ctx):
         ctx.log("correspondence broke; extended search for a failing input")
         for k in range(3):
             r2 = random.Random("C13-search-%d-%d" % (ctx.seed, k))
-            more = [c12.gen_case(r2) for _ in range(n)]
+            more = [with_reports(c12.gen_case(r2), r2) for _ in range(n)]
             o2, c2 = evaluate(ctx, more, "c13_s%d" % k)
             judge(ctx, more, o2, c2, stats)
             if ctx.violations:
